@@ -69,6 +69,19 @@ func checkC20(c *Ctx) error {
 				sv.Args = append(sv.Args, cfg.Str(fmt.Sprintf("%%env(\"VERIF_ENV_%d\", \"x\")%%:%%envInt(\"VERIF_ENVI_%d\", 7)%%", si%3, si%3)))
 			}
 		}
+		// services created from a value expression, in every scope (a pointer literal is a fresh object per creation), and
+		// constructor services that hold them
+		for k, sc := range []string{"contextual", "non_shared", "shared", ""} {
+			v := cfg.Service{Name: fmt.Sprintf("valsvc%d", k), Value: cfg.P(`&"fixt/pa".Obj{}`)}
+			if sc != "" {
+				v.Scope = cfg.P(sc)
+			}
+			h := cfg.Service{Name: fmt.Sprintf("valholder%d", k), Constructor: cfg.P(`"fixt/pa".New`), Args: []cfg.Val{cfg.Str("@" + v.Name)}}
+			if k == 0 && i%2 == 0 {
+				h.Scope = cfg.P("contextual")
+			}
+			conf.Services = append(conf.Services, v, h)
+		}
 		// operation alphabet of this configuration
 		var alpha []probe.Op
 		for _, s := range conf.Services {
